@@ -31,6 +31,9 @@ def draw_config(rng, mode="bounded", allow_restart=False, faults=True):
         c["clients"] = ["c1", "c2", "c3"][: rng.randint(1, 3)]
         c["channels"] = CHANNELS[: rng.randint(1, 3)]
         c["jobids"] = JOBIDS[: rng.randint(1, 6)]
+    if rng.random() < 0.25:
+        # legal but unusual explicit ids: 0 and the empty string (falsy)
+        c["jobids"] = c["jobids"] + rng.choice([[0], [""], [0, ""], [2], [3, 2], [0, 1]])
     c["p_noid"] = rng.choice([0.0, 0.2, 0.5])
     c["prios"] = rng.choice([[0], [0, 1], [0, 1, 2], [2, 1, 0, 0]])
     # always explicit: the defaults (120 s, 3600 s) are implementation constants, not properties
@@ -307,8 +310,11 @@ class QsRun:
     def g_kill(self, sendable, live, deadc):
         rng = self.rng
         ids = [self._known_id(lambda j: j.state != "d")]
-        if rng.random() < 0.2:
+        if rng.random() < 0.3:
             ids.append(self._known_id())
+        if rng.random() < 0.25:
+            # ids the queue does not (or no longer) know, anywhere in the list
+            ids.insert(rng.randrange(len(ids) + 1), rng.choice(self.config.jobids + ["no-such-job", 987654]))
         return ["send", rng.choice(sendable), "qkill", {"jobids": ids}]
 
     def g_wait(self, sendable, live, deadc):
